@@ -90,15 +90,21 @@ def sgn (d : K) : Option Int := if 0 < d then some 1 else if d < 0 then some (-1
 def boundaryTime (line : Int → K) (c : Int) (o d : K) : K :=
   if 0 < d then (line (c + 1) - o) / d else if d < 0 then (line c - o) / d else realMax
 
-/-- everything in one iteration of the `loop` after the two boundary times are known -/
-def stepWith (h : HF3 K) (d : V3 K) (maxToi : K) (toiX toiZ : K) (s : St) : Step :=
-  if maxToi < toiX ∧ maxToi < toiZ then .stop s.out else
+/-- the two tests that move `cell`: `(cell_diff.0, cell_diff.1)`; `none` = `signum()` of a zero component was needed -/
+def cellMove (d : V3 K) (toiX toiZ : K) : Option (Int × Int) :=
   let mvX : Bool := decide (0 ≤ toiX) && decide (toiX ≤ toiZ)
   let mvZ : Bool := decide (0 ≤ toiZ) && decide (toiZ ≤ toiX)
   match (if mvX then sgn d.x else some 0), (if mvZ then sgn d.z else some 0) with
-  | none, _ => .signumOfZero s.out
-  | _, none => .signumOfZero s.out
-  | some dj, some di =>
+  | none, _ => none
+  | _, none => none
+  | some dj, some di => some (di, dj)
+
+/-- everything in one iteration of the `loop` after the two boundary times are known -/
+def stepWith (h : HF3 K) (d : V3 K) (maxToi : K) (toiX toiZ : K) (s : St) : Step :=
+  if maxToi < toiX ∧ maxToi < toiZ then .stop s.out else
+  match cellMove d toiX toiZ with
+  | none => .signumOfZero s.out
+  | some (di, dj) =>
     if di = 0 ∧ dj = 0 then .stop s.out else
     let ri : Int × Int := (s.ri.1 + di, s.ri.2 + di)
     let rj : Int × Int := (s.rj.1 + dj, s.rj.2 + dj)
